@@ -1,8 +1,9 @@
-(* C17/E2E.v — the two components around one registry and one event bus (Model.e2e_step):
-   with terminate events resolved as /repo HEAD does since 94649ad (variant Repaired), the session
-   of the newest claimant is the only live session of its tuple and the registry owner; the code
-   before that fix (variant Defective) destroyed it. *)
+(* C17/E2E.v — the two components around one registry and one event bus (Model.e2e_step).
+   Variant Repaired (all three recorded repairs): after every operation every tuple has at most ONE
+   live session over both components, it is the registry owner, and the session created by the last
+   operation is that session.  Refutations for the variants that lack a repair are at the end. *)
 From OV Require Import Common.Base C17.Model C17.Proofs.
+From Coq Require Import ZifyBool ZifyNat ZifyN.
 
 Lemma sid_disjoint n m : bytes_eqb (ipoe_sid n) (pppoe_sid m) = false /\ bytes_eqb (pppoe_sid m) (ipoe_sid n) = false.
 Proof. split; reflexivity. Qed.
@@ -49,16 +50,50 @@ Qed.
 Definition ipo (sid : bytes) (k : key) : owner := mkOwner proto_ipoe sid k.
 Definition ppo (sid : bytes) (k : key) : owner := mkOwner proto_pppoe sid k.
 
+
+Lemma find_pp_some k sid l : In (k, sid) l -> exists k', find_pp sid l = Some (k', sid) /\ In (k', sid) l.
+Proof.
+  induction l as [|[k2 s2] r IH]; simpl; [tauto|]. intros [H|H].
+  - inversion H; subst. rewrite bytes_eqb_refl. eauto.
+  - destruct (bytes_eqb s2 sid) eqn:E.
+    + apply bytes_eqb_eq in E. subst. eauto.
+    + destruct (IH H) as [k' [A B]]. eauto.
+Qed.
+Lemma pppoe_sid_neq n m : n <> m -> bytes_eqb (pppoe_sid n) (pppoe_sid m) = false.
+Proof.
+  intros H. unfold pppoe_sid. simpl. destruct (N.eqb_spec n m); [contradiction | reflexivity].
+Qed.
+
+Lemma nodup_remove_pp k sid l : NoDup l -> NoDup (remove_pp k sid l).
+Proof.
+  induction l as [|[k2 s2] r IH]; simpl; intros H; [constructor|].
+  apply NoDup_cons_iff in H. destruct H as [Hn Hd].
+  destruct (key_eqb k2 k && bytes_eqb s2 sid); [auto|].
+  constructor; [|auto]. intros Hin. apply in_remove_pp in Hin. tauto.
+Qed.
+Lemma count_pp_one k s0 l : NoDup l -> In (k, s0) l -> (forall s, In (k, s) l -> s = s0) -> count_pp k l = 1%nat.
+Proof.
+  unfold count_pp. induction l as [|[k2 s2] r IH]; simpl; intros Hn Hin Hall; [tauto|].
+  apply NoDup_cons_iff in Hn. destruct Hn as [Hnot Hd].
+  destruct (key_eqb k2 k) eqn:Ek.
+  - apply key_eqb_eq in Ek. subst k2. assert (s2 = s0) by (apply Hall; auto). subst s2. simpl. f_equal.
+    apply (count_pp_zero k r). intros s Hs. assert (s = s0) by (apply Hall; auto). subst. contradiction.
+  - destruct Hin as [H|H]; [inversion H; subst; rewrite key_eqb_refl in Ek; discriminate|].
+    apply IH; auto.
+Qed.
+
 Record Inv (w : world) : Prop := {
   v_ok : reg_ok (w_reg w);
   v_ipoe_sids : forall k s, In (k, s) (w_ipoe w) -> exists n, o_sid s = ipoe_sid n;
   v_ipoe : forall k s, m_get k (w_ipoe w) = Some s ->
       s = ipo (o_sid s) k /\ reg_get (w_reg w) k = Some s;
+  v_pp_sids : forall k sid, In (k, sid) (w_pp_all w) -> exists n, sid = pppoe_sid n /\ (n < w_next w)%N;
+  v_pp_uniq : forall k1 k2 sid, In (k1, sid) (w_pp_all w) -> In (k2, sid) (w_pp_all w) -> k1 = k2;
   v_pp : forall k sid, In (k, sid) (w_pp_all w) ->
-      (exists n, sid = pppoe_sid n) /\ reg_get (w_reg w) k = Some (ppo sid k) /\
-      m_get k (w_pp_key w) = Some (ppo sid k);
+      reg_get (w_reg w) k = Some (ppo sid k) /\ m_get k (w_pp_key w) = Some (ppo sid k);
   v_owner : forall k o, reg_get (w_reg w) k = Some o ->
-      m_get k (w_ipoe w) = Some o \/ In (k, o_sid o) (w_pp_all w)
+      m_get k (w_ipoe w) = Some o \/ In (k, o_sid o) (w_pp_all w);
+  v_nodup : NoDup (w_pp_all w)
 }.
 
 Lemma inv0 : Inv world0.
@@ -66,17 +101,22 @@ Proof.
   constructor; simpl; try tauto; try discriminate.
   - apply new_registry_ok.
   - intros k o H. rewrite reg_get_new in H. discriminate.
+  - constructor.
 Qed.
 
 (* registry-level facts in the vocabulary of this file *)
 Lemma cclaim_get self r k sid k' : reg_ok r ->
   reg_get (fst (component_claim self r k sid)) k' =
   if key_eqb k' k then Some (mkOwner self sid k) else reg_get r k'.
-Proof.
-  intros H. rewrite component_claim_state. rewrite reg_step_get by exact H. reflexivity.
-Qed.
+Proof. intros H. rewrite component_claim_state. rewrite reg_step_get by exact H. reflexivity. Qed.
 Lemma cclaim_ok self r k sid : reg_ok r -> reg_ok (fst (component_claim self r k sid)).
 Proof. intros H. rewrite component_claim_state. apply reg_step_ok. exact H. Qed.
+Lemma cany_get self r k sid k' : reg_ok r ->
+  reg_get (fst (component_claim_any self r k sid)) k' =
+  if key_eqb k' k then Some (mkOwner self sid k) else reg_get r k'.
+Proof. intros H. rewrite component_claim_any_state. rewrite reg_step_get by exact H. reflexivity. Qed.
+Lemma cany_ok self r k sid : reg_ok r -> reg_ok (fst (component_claim_any self r k sid)).
+Proof. intros H. rewrite component_claim_any_state. apply reg_step_ok. exact H. Qed.
 Lemma crelease_stale self r k sid k' : reg_ok r ->
   (forall cur, reg_get r k = Some cur -> same_id cur (mkOwner self sid k) = false) ->
   reg_get (component_release self r k sid) k' = reg_get r k'.
@@ -126,35 +166,46 @@ Proof.
   intros H E Ek. subst sid. unfold pppoe_terminate. rewrite H. simpl. rewrite bytes_eqb_refl.
   rewrite Ek, H, bytes_eqb_refl. reflexivity.
 Qed.
+(* the event names an older session of the tuple: found through the id index, the tuple index keeps
+   pointing to the newer one *)
+Lemma pppoe_terminate_older w sid k cur :
+  m_get k (w_pp_key w) = Some cur -> bytes_eqb (o_sid cur) sid = false ->
+  find_pp sid (w_pp_all w) = Some (k, sid) ->
+  pppoe_terminate Repaired w (sid, k) =
+  mkW (component_release proto_pppoe (w_reg w) k sid) (w_ipoe w) (w_pp_key w)
+      (remove_pp k sid (w_pp_all w)) (w_next w).
+Proof.
+  intros H E F. unfold pppoe_terminate. rewrite H. simpl. rewrite E, F, H, E. reflexivity.
+Qed.
 
-(* one step of the repaired system, on a world satisfying the invariant *)
-Lemma step_discover w k : Inv w ->
-  let w' := e2e_step Repaired w (EDiscover k) in
+(* an ipoe creation path whose session claims (all three paths in the Repaired variant) *)
+Lemma step_create w k : Inv w ->
+  let w' := ipoe_create Repaired true w k in
   Inv w' /\ e2e_snapshot w' k = (1%nat, 0%nat, Some proto_ipoe).
 Proof.
-  intros I. destruct I as [Hok Hsids Hip Hpp Hown]. cbn [e2e_step].
+  intros I. destruct I as [Hok Hsids Hip Hps Hpu Hpp Hown Hnd]. unfold ipoe_create.
   destruct (m_get k (w_ipoe w)) as [s|] eqn:Eg.
-  - (* a session for the tuple exists: nothing happens *)
-    split; [constructor; auto|]. unfold e2e_snapshot. rewrite Eg.
+  - split; [constructor; auto|]. unfold e2e_snapshot. rewrite Eg.
     destruct (Hip k s Eg) as [Es Er]. rewrite Er.
     assert (count_pp k (w_pp_all w) = 0%nat) as ->.
-    { apply count_pp_zero. intros sid Hin. destruct (Hpp _ _ Hin) as [_ [Hr _]]. rewrite Er in Hr.
+    { apply count_pp_zero. intros sid Hin. destruct (Hpp _ _ Hin) as [Hr _]. rewrite Er in Hr.
       inversion Hr as [E]. rewrite Es in E. unfold ipo, ppo in E. inversion E. }
     rewrite Es. reflexivity.
-  - set (n := w_next w). set (X := ipo (ipoe_sid n) k).
+  - cbn [w_reg w_ipoe w_pp_key w_pp_all w_next].
+    set (n := w_next w). set (X := ipo (ipoe_sid n) k).
     pose proof (component_claim_events proto_ipoe (w_reg w) k (ipoe_sid n)) as Hev.
     pose proof (fun k' => cclaim_get proto_ipoe (w_reg w) k (ipoe_sid n) k' Hok) as Hget.
     pose proof (cclaim_ok proto_ipoe (w_reg w) k (ipoe_sid n) Hok) as Hok'.
     destruct (component_claim proto_ipoe (w_reg w) k (ipoe_sid n)) as [r' evs]. cbn [fst snd] in *.
     rewrite lookup_get in Hev.
+    assert (Hps' : forall k2 sid, In (k2, sid) (w_pp_all w) -> exists m, sid = pppoe_sid m /\ (m < N.succ n)%N).
+    { intros k2 sid Hin. destruct (Hps _ _ Hin) as [m [E L]]. exists m. split; [exact E | unfold n; lia]. }
     destruct (reg_get (w_reg w) k) as [prev|] eqn:Eprev.
-    + (* owned by a pppoe session: it is evicted, the new ipoe session stays *)
-      destruct (Hown k prev Eprev) as [Hc|Hc]; [congruence|].
-      destruct (Hpp _ _ Hc) as [[m Em] [Hr Hk]]. rewrite Em in Hr, Hk. rewrite Eprev in Hr.
+    + destruct (Hown k prev Eprev) as [Hc|Hc]; [congruence|].
+      destruct (Hps _ _ Hc) as [m [Em _]]. destruct (Hpp _ _ Hc) as [Hr Hk]. rewrite Em in Hr, Hk. rewrite Eprev in Hr.
       inversion Hr as [Eprev']. clear Hr Hc Em. subst prev.
       cbn [o_proto o_sid ppo] in *. replace (bytes_eqb proto_pppoe proto_ipoe) with false in Hev by reflexivity.
-      subst evs.
-      cbn [deliver fold_left].
+      subst evs. cbn [deliver fold_left].
       rewrite ipoe_terminate_miss.
       2:{ cbn [w_ipoe]. intros k2 s2 Hin. apply in_m_set in Hin. destruct Hin as [[_ ->]|[Hin _]]; [reflexivity|].
           destruct (Hsids _ _ Hin) as [n2 ->]. reflexivity. }
@@ -164,186 +215,285 @@ Proof.
       { intros k'. apply crelease_stale; [exact Hok'|]. intros cur Hc'. rewrite Hget, key_eqb_refl in Hc'.
         inversion Hc'. reflexivity. }
       split.
-      * constructor; cbn [w_reg w_ipoe w_pp_key w_pp_all].
+      * constructor; cbn [w_reg w_ipoe w_pp_key w_pp_all w_next].
         -- apply crelease_ok. exact Hok'.
         -- intros k2 s2 Hin. apply in_m_set in Hin. destruct Hin as [[_ ->]|[Hin _]]; [exists n; reflexivity | eauto].
         -- intros k2 s2 Hg. rewrite Hst, Hget.
            destruct (key_eqb k2 k) eqn:Ek.
            ++ apply key_eqb_eq in Ek. subst k2. rewrite m_get_set_same in Hg. inversion Hg. subst s2. split; reflexivity.
            ++ rewrite m_get_set_other in Hg by (apply key_eqb_neq; exact Ek). apply Hip. exact Hg.
+        -- intros k2 s2 Hin. apply in_remove_pp in Hin. destruct Hin as [Hin _]. eauto.
+        -- intros k1 k2 s2 H1 H2. apply in_remove_pp in H1. apply in_remove_pp in H2. destruct H1, H2. eauto.
         -- intros k2 s2 Hin. apply in_remove_pp in Hin. destruct Hin as [Hin Hne].
-           destruct (Hpp _ _ Hin) as [Hn [Hr2 Hk2]].
+           destruct (Hpp _ _ Hin) as [Hr2 Hk2].
            destruct (key_eqb k2 k) eqn:Ek.
            ++ apply key_eqb_eq in Ek. subst k2. rewrite Eprev in Hr2. inversion Hr2. exfalso. apply Hne. auto.
-           ++ split; [exact Hn|]. rewrite Hst, Hget, Ek. split; [exact Hr2|].
+           ++ rewrite Hst, Hget, Ek. split; [exact Hr2|].
               rewrite m_get_del_other by (apply key_eqb_neq; exact Ek). exact Hk2.
         -- intros k2 o2. rewrite Hst, Hget. destruct (key_eqb k2 k) eqn:Ek.
            ++ apply key_eqb_eq in Ek. subst k2. intros H; inversion H; subst. left. apply m_get_set_same.
            ++ intros H. destruct (Hown _ _ H) as [Hl|Hr2].
               ** left. rewrite m_get_set_other by (apply key_eqb_neq; exact Ek). exact Hl.
               ** right. apply in_remove_pp. split; [exact Hr2|]. intros [-> _]. rewrite key_eqb_refl in Ek. discriminate.
+        -- apply nodup_remove_pp. exact Hnd.
       * unfold e2e_snapshot. cbn [w_reg w_ipoe w_pp_all]. rewrite m_get_set_same, Hst, Hget, key_eqb_refl.
         rewrite count_pp_zero; [reflexivity|].
         intros s2 Hin. apply in_remove_pp in Hin. destruct Hin as [Hin Hne].
-        destruct (Hpp _ _ Hin) as [_ [Hr2 _]]. rewrite Eprev in Hr2. inversion Hr2. apply Hne. auto.
-    + (* unowned tuple *)
-      subst evs. cbn [deliver fold_left]. split.
-      * constructor; cbn [w_reg w_ipoe w_pp_key w_pp_all].
+        destruct (Hpp _ _ Hin) as [Hr2 _]. rewrite Eprev in Hr2. inversion Hr2. apply Hne. auto.
+    + subst evs. cbn [deliver fold_left]. split.
+      * constructor; cbn [w_reg w_ipoe w_pp_key w_pp_all w_next].
         -- exact Hok'.
         -- intros k2 s2 Hin. apply in_m_set in Hin. destruct Hin as [[_ ->]|[Hin _]]; [exists n; reflexivity | eauto].
         -- intros k2 s2 Hg. rewrite Hget. destruct (key_eqb k2 k) eqn:Ek.
            ++ apply key_eqb_eq in Ek. subst k2. rewrite m_get_set_same in Hg. inversion Hg. split; reflexivity.
            ++ rewrite m_get_set_other in Hg by (apply key_eqb_neq; exact Ek). apply Hip. exact Hg.
-        -- intros k2 s2 Hin. destruct (Hpp _ _ Hin) as [Hn [Hr2 Hk2]]. rewrite Hget.
+        -- exact Hps'.
+        -- exact Hpu.
+        -- intros k2 s2 Hin. destruct (Hpp _ _ Hin) as [Hr2 Hk2]. rewrite Hget.
            destruct (key_eqb k2 k) eqn:Ek; [apply key_eqb_eq in Ek; subst; congruence | auto].
         -- intros k2 o2. rewrite Hget. destruct (key_eqb k2 k) eqn:Ek.
            ++ apply key_eqb_eq in Ek. subst k2. intros H; inversion H; subst. left. apply m_get_set_same.
            ++ intros H. destruct (Hown _ _ H) as [Hl|Hr2]; [left|right; exact Hr2].
               rewrite m_get_set_other by (apply key_eqb_neq; exact Ek). exact Hl.
+        -- exact Hnd.
       * unfold e2e_snapshot. cbn [w_reg w_ipoe w_pp_all]. rewrite m_get_set_same, Hget, key_eqb_refl.
         rewrite count_pp_zero; [reflexivity|].
-        intros s2 Hin. destruct (Hpp _ _ Hin) as [_ [Hr2 _]]. congruence.
+        intros s2 Hin. destruct (Hpp _ _ Hin) as [Hr2 _]. congruence.
 Qed.
 
-Lemma step_padr w k : Inv w -> count_pp k (w_pp_all w) = 0%nat ->
+Lemma step_padr w k : Inv w ->
   let w' := e2e_step Repaired w (EPadr k) in
   Inv w' /\ e2e_snapshot w' k = (0%nat, 1%nat, Some proto_pppoe).
 Proof.
-  intros I Hz. destruct I as [Hok Hsids Hip Hpp Hown]. cbn [e2e_step].
+  intros I. destruct I as [Hok Hsids Hip Hps Hpu Hpp Hown Hnd]. cbn [e2e_step v_evict_pp Repaired site_claim].
   set (n := w_next w). set (P := ppo (pppoe_sid n) k).
-  assert (Hnone : forall s, ~ In (k, s) (w_pp_all w)).
-  { intros s Hin. apply in_count_pp in Hin. contradiction. }
-  pose proof (component_claim_events proto_pppoe (w_reg w) k (pppoe_sid n)) as Hev.
-  pose proof (fun k' => cclaim_get proto_pppoe (w_reg w) k (pppoe_sid n) k' Hok) as Hget.
-  pose proof (cclaim_ok proto_pppoe (w_reg w) k (pppoe_sid n) Hok) as Hok'.
-  destruct (component_claim proto_pppoe (w_reg w) k (pppoe_sid n)) as [r' evs]. cbn [fst snd] in *.
+  pose proof (component_claim_any_events proto_pppoe (w_reg w) k (pppoe_sid n)) as Hev.
+  pose proof (fun k' => cany_get proto_pppoe (w_reg w) k (pppoe_sid n) k' Hok) as Hget.
+  pose proof (cany_ok proto_pppoe (w_reg w) k (pppoe_sid n) Hok) as Hok'.
+  destruct (component_claim_any proto_pppoe (w_reg w) k (pppoe_sid n)) as [r' evs]. cbn [fst snd] in *.
   rewrite lookup_get in Hev.
-  assert (Hcnt : count_pp k ((k, pppoe_sid n) :: w_pp_all w) = 1%nat).
-  { unfold count_pp in *. simpl. rewrite key_eqb_refl. simpl. rewrite Hz. reflexivity. }
+  assert (Hps' : forall k2 sid, In (k2, sid) ((k, pppoe_sid n) :: w_pp_all w) ->
+                 exists m, sid = pppoe_sid m /\ (m < N.succ n)%N).
+  { intros k2 sid [Hin|Hin]; [inversion Hin; exists n; split; [reflexivity | lia]|].
+    destruct (Hps _ _ Hin) as [m [E L]]. exists m. split; [exact E | unfold n; lia]. }
+  assert (Hfresh : forall k2 sid, In (k2, sid) (w_pp_all w) -> bytes_eqb sid (pppoe_sid n) = false).
+  { intros k2 sid Hin. destruct (Hps _ _ Hin) as [m [-> L]]. apply pppoe_sid_neq. unfold n. lia. }
+  assert (Hpu' : forall k1 k2 sid, In (k1, sid) ((k, pppoe_sid n) :: w_pp_all w) ->
+                 In (k2, sid) ((k, pppoe_sid n) :: w_pp_all w) -> k1 = k2).
+  { intros k1 k2 sid [H1|H1] [H2|H2].
+    - inversion H1; inversion H2; congruence.
+    - inversion H1; subst. pose proof (Hfresh _ _ H2) as F. rewrite bytes_eqb_refl in F. discriminate.
+    - inversion H2; subst. pose proof (Hfresh _ _ H1) as F. rewrite bytes_eqb_refl in F. discriminate.
+    - eauto. }
   destruct (reg_get (w_reg w) k) as [prev|] eqn:Eprev.
-  - (* owned by an ipoe session: it is evicted, the new pppoe session stays *)
-    destruct (Hown k prev Eprev) as [Hc|Hc]; [|exfalso; eapply Hnone; eauto].
-    destruct (Hip _ _ Hc) as [Es _].
-    destruct (Hsids k prev (m_get_some_in _ _ _ Hc)) as [m Em]. rewrite Em in Es.
-    subst prev. cbn [o_proto o_sid ipo] in *.
-    replace (bytes_eqb proto_ipoe proto_pppoe) with false in Hev by reflexivity. subst evs. clear Em.
-    cbn [deliver fold_left].
-    rewrite (ipoe_terminate_hit _ (ipoe_sid m) k (ipo (ipoe_sid m) k)) by (cbn [w_ipoe]; auto).
-    cbn [w_pp_key w_pp_all w_reg w_ipoe w_next o_key o_sid ipo].
-    rewrite pppoe_terminate_miss.
-    2:{ cbn [w_pp_key]. intros s Hs. rewrite m_get_set_same in Hs. inversion Hs. reflexivity. }
-    2:{ cbn [w_pp_all]. intros k2 s2 [Hin|Hin]; [inversion Hin; reflexivity|].
-        destruct (Hpp _ _ Hin) as [[n2 ->] _]. reflexivity. }
-    assert (Hst : forall k', reg_get (component_release proto_ipoe r' k (ipoe_sid m)) k' = reg_get r' k').
-    { intros k'. apply crelease_stale; [exact Hok'|]. intros cur Hc'. rewrite Hget, key_eqb_refl in Hc'.
-      inversion Hc'. reflexivity. }
-    split.
-    + constructor; cbn [w_reg w_ipoe w_pp_key w_pp_all].
-      * apply crelease_ok. exact Hok'.
-      * intros k2 s2 Hin. apply in_m_del in Hin. destruct Hin as [Hin _]. eauto.
-      * intros k2 s2 Hg. rewrite Hst, Hget. destruct (key_eqb k2 k) eqn:Ek.
-        -- apply key_eqb_eq in Ek. subst k2. rewrite m_get_del_same in Hg. discriminate.
-        -- rewrite m_get_del_other in Hg by (apply key_eqb_neq; exact Ek). apply Hip. exact Hg.
-      * intros k2 s2 [Hin|Hin].
-        -- inversion Hin; subst. split; [exists n; reflexivity|]. rewrite Hst, Hget, key_eqb_refl.
-           split; [reflexivity | apply m_get_set_same].
-        -- destruct (Hpp _ _ Hin) as [Hn [Hr2 Hk2]]. destruct (key_eqb k2 k) eqn:Ek.
-           ++ apply key_eqb_eq in Ek. subst k2. exfalso. eapply Hnone; eauto.
-           ++ split; [exact Hn|]. rewrite Hst, Hget, Ek. split; [exact Hr2|].
-              rewrite m_get_set_other by (apply key_eqb_neq; exact Ek). exact Hk2.
-      * intros k2 o2. rewrite Hst, Hget. destruct (key_eqb k2 k) eqn:Ek.
-        -- apply key_eqb_eq in Ek. subst k2. intros H; inversion H; subst. right. left. reflexivity.
-        -- intros H. destruct (Hown _ _ H) as [Hl|Hr2]; [left|right; right; exact Hr2].
-           rewrite m_get_del_other by (apply key_eqb_neq; exact Ek). exact Hl.
-    + unfold e2e_snapshot. cbn [w_reg w_ipoe w_pp_all]. rewrite m_get_del_same, Hst, Hget, key_eqb_refl, Hcnt. reflexivity.
+  - destruct (Hown k prev Eprev) as [Hc|Hc].
+    + (* owned by an ipoe session: it is evicted, the new pppoe session stays *)
+      assert (Hnone : forall s, ~ In (k, s) (w_pp_all w)).
+      { intros s Hin. destruct (Hpp _ _ Hin) as [Hr _]. rewrite Eprev in Hr. destruct (Hip _ _ Hc) as [Es _].
+        inversion Hr as [E]. rewrite E in Es. unfold ipo, ppo in Es. inversion Es. }
+      assert (Hcnt : count_pp k ((k, pppoe_sid n) :: w_pp_all w) = 1%nat).
+      { unfold count_pp. simpl. rewrite key_eqb_refl. simpl. f_equal. apply (count_pp_zero k _ Hnone). }
+      destruct (Hip _ _ Hc) as [Es _].
+      destruct (Hsids k prev (m_get_some_in _ _ _ Hc)) as [m Em]. rewrite Em in Es.
+      subst prev. unfold same_id in Hev. cbn [o_proto o_sid ipo] in *.
+      replace (bytes_eqb proto_ipoe proto_pppoe) with false in Hev by reflexivity. cbn [andb] in Hev. subst evs. clear Em.
+      cbn [deliver fold_left].
+      rewrite (ipoe_terminate_hit _ (ipoe_sid m) k (ipo (ipoe_sid m) k)) by (cbn [w_ipoe]; auto).
+      cbn [w_pp_key w_pp_all w_reg w_ipoe w_next o_key o_sid ipo].
+      rewrite pppoe_terminate_miss.
+      2:{ cbn [w_pp_key]. intros s Hs. rewrite m_get_set_same in Hs. inversion Hs. reflexivity. }
+      2:{ cbn [w_pp_all]. intros k2 s2 [Hin|Hin]; [inversion Hin; reflexivity|].
+          destruct (Hps _ _ Hin) as [n2 [-> _]]. reflexivity. }
+      assert (Hst : forall k', reg_get (component_release proto_ipoe r' k (ipoe_sid m)) k' = reg_get r' k').
+      { intros k'. apply crelease_stale; [exact Hok'|]. intros cur Hc'. rewrite Hget, key_eqb_refl in Hc'.
+        inversion Hc'. reflexivity. }
+      split.
+      * constructor; cbn [w_reg w_ipoe w_pp_key w_pp_all w_next].
+        -- apply crelease_ok. exact Hok'.
+        -- intros k2 s2 Hin. apply in_m_del in Hin. destruct Hin as [Hin _]. eauto.
+        -- intros k2 s2 Hg. rewrite Hst, Hget. destruct (key_eqb k2 k) eqn:Ek.
+           ++ apply key_eqb_eq in Ek. subst k2. rewrite m_get_del_same in Hg. discriminate.
+           ++ rewrite m_get_del_other in Hg by (apply key_eqb_neq; exact Ek). apply Hip. exact Hg.
+        -- exact Hps'.
+        -- exact Hpu'.
+        -- intros k2 s2 [Hin|Hin].
+           ++ inversion Hin; subst. rewrite Hst, Hget, key_eqb_refl. split; [reflexivity | apply m_get_set_same].
+           ++ destruct (Hpp _ _ Hin) as [Hr2 Hk2]. destruct (key_eqb k2 k) eqn:Ek.
+              ** apply key_eqb_eq in Ek. subst k2. exfalso. eapply Hnone; eauto.
+              ** rewrite Hst, Hget, Ek. split; [exact Hr2|].
+                 rewrite m_get_set_other by (apply key_eqb_neq; exact Ek). exact Hk2.
+        -- intros k2 o2. rewrite Hst, Hget. destruct (key_eqb k2 k) eqn:Ek.
+           ++ apply key_eqb_eq in Ek. subst k2. intros H; inversion H; subst. right. left. reflexivity.
+           ++ intros H. destruct (Hown _ _ H) as [Hl|Hr2]; [left|right; right; exact Hr2].
+              rewrite m_get_del_other by (apply key_eqb_neq; exact Ek). exact Hl.
+        -- constructor; [intros Hin; pose proof (Hfresh _ _ Hin) as F; rewrite bytes_eqb_refl in F; discriminate | exact Hnd].
+      * unfold e2e_snapshot. cbn [w_reg w_ipoe w_pp_all]. rewrite m_get_del_same, Hst, Hget, key_eqb_refl, Hcnt. reflexivity.
+    + (* owned by an older pppoe session of the tuple (replayed PADR): it is evicted as well *)
+      destruct (Hps _ _ Hc) as [m [Em Lm]]. destruct (Hpp _ _ Hc) as [Hr Hk].
+      rewrite Eprev in Hr. inversion Hr as [Eprev']. rewrite Em in Eprev', Hk, Hc. clear Hr Em. subst prev.
+      assert (Hnm : bytes_eqb (pppoe_sid m) (pppoe_sid n) = false) by (apply pppoe_sid_neq; unfold n; lia).
+      unfold same_id in Hev. cbn [o_proto o_sid ppo] in *. rewrite Hnm, andb_false_r in Hev. subst evs.
+      assert (Hno : m_get k (w_ipoe w) = None).
+      { destruct (m_get k (w_ipoe w)) as [s|] eqn:E; [|reflexivity]. destruct (Hip _ _ E) as [Es Hr].
+        rewrite Eprev in Hr. inversion Hr as [E2]. rewrite <- E2 in Es. unfold ipo, ppo in Es. inversion Es. }
+      assert (Honly : forall s, In (k, s) (w_pp_all w) -> s = pppoe_sid m).
+      { intros s Hin. destruct (Hpp _ _ Hin) as [Hr _]. rewrite Eprev in Hr. inversion Hr. reflexivity. }
+      cbn [deliver fold_left].
+      rewrite ipoe_terminate_miss.
+      2:{ cbn [w_ipoe]. intros k2 s2 Hin. destruct (Hsids _ _ Hin) as [n2 ->]. reflexivity. }
+      destruct (find_pp_some k (pppoe_sid m) (w_pp_all w) Hc) as [k' [Hf Hin']].
+      assert (k' = k) by (eapply Hpu; eauto). subst k'.
+      rewrite (pppoe_terminate_older _ (pppoe_sid m) k P).
+      2:{ cbn [w_pp_key]. apply m_get_set_same. }
+      2:{ unfold P. cbn [o_sid ppo]. rewrite bytes_eqb_sym. exact Hnm. }
+      2:{ cbn [w_pp_all find_pp]. rewrite bytes_eqb_sym, Hnm. exact Hf. }
+      cbn [w_pp_key w_pp_all w_reg w_ipoe w_next remove_pp].
+      rewrite key_eqb_refl, (bytes_eqb_sym (pppoe_sid n)), Hnm. cbn [andb].
+      assert (Hst : forall k', reg_get (component_release proto_pppoe r' k (pppoe_sid m)) k' = reg_get r' k').
+      { intros k'. apply crelease_stale; [exact Hok'|]. intros cur Hc'. rewrite Hget, key_eqb_refl in Hc'.
+        inversion Hc'. unfold same_id. cbn [o_sid]. rewrite (bytes_eqb_sym (pppoe_sid n)), Hnm, andb_false_r. reflexivity. }
+      assert (Hrest : forall s, ~ In (k, s) (remove_pp k (pppoe_sid m) (w_pp_all w))).
+      { intros s Hin. apply in_remove_pp in Hin. destruct Hin as [Hin Hne]. apply Hne. split; [reflexivity | apply Honly; exact Hin]. }
+      split.
+      * constructor; cbn [w_reg w_ipoe w_pp_key w_pp_all w_next].
+        -- apply crelease_ok. exact Hok'.
+        -- exact Hsids.
+        -- intros k2 s2 Hg. rewrite Hst, Hget. destruct (key_eqb k2 k) eqn:Ek.
+           ++ apply key_eqb_eq in Ek. subst k2. congruence.
+           ++ apply Hip. exact Hg.
+        -- intros k2 s2 [Hin|Hin]; [apply (Hps' k2); left; exact Hin|].
+           apply in_remove_pp in Hin. destruct Hin as [Hin _]. apply (Hps' k2). right. exact Hin.
+        -- intros k1 k2 s2 H1 H2. apply (Hpu' k1 k2 s2).
+           ++ destruct H1 as [H1|H1]; [left; exact H1 | right; apply in_remove_pp in H1; tauto].
+           ++ destruct H2 as [H2|H2]; [left; exact H2 | right; apply in_remove_pp in H2; tauto].
+        -- intros k2 s2 [Hin|Hin].
+           ++ inversion Hin; subst. rewrite Hst, Hget, key_eqb_refl. split; [reflexivity | apply m_get_set_same].
+           ++ destruct (key_eqb k2 k) eqn:Ek.
+              ** apply key_eqb_eq in Ek. subst k2. exfalso. eapply Hrest; eauto.
+              ** apply in_remove_pp in Hin. destruct Hin as [Hin _]. destruct (Hpp _ _ Hin) as [Hr2 Hk2].
+                 rewrite Hst, Hget, Ek. split; [exact Hr2|].
+                 rewrite m_get_set_other by (apply key_eqb_neq; exact Ek). exact Hk2.
+        -- intros k2 o2. rewrite Hst, Hget. destruct (key_eqb k2 k) eqn:Ek.
+           ++ apply key_eqb_eq in Ek. subst k2. intros H; inversion H; subst. right. left. reflexivity.
+           ++ intros H. destruct (Hown _ _ H) as [Hl|Hr2]; [left; exact Hl|]. right. right.
+              apply in_remove_pp. split; [exact Hr2|]. intros [-> _]. rewrite key_eqb_refl in Ek. discriminate.
+        -- constructor; [intros Hin; apply in_remove_pp in Hin; destruct Hin as [Hin _]; pose proof (Hfresh _ _ Hin) as F;
+                         rewrite bytes_eqb_refl in F; discriminate | apply nodup_remove_pp; exact Hnd].
+      * unfold e2e_snapshot. cbn [w_reg w_ipoe w_pp_all]. rewrite Hno, Hst, Hget, key_eqb_refl.
+        unfold count_pp. simpl. rewrite key_eqb_refl. simpl.
+        fold (count_pp k (remove_pp k (pppoe_sid m) (w_pp_all w))). rewrite (count_pp_zero k _ Hrest). reflexivity.
   - (* unowned tuple *)
     subst evs. cbn [deliver fold_left].
+    assert (Hnone : forall s, ~ In (k, s) (w_pp_all w)).
+    { intros s Hin. destruct (Hpp _ _ Hin) as [Hr _]. congruence. }
+    assert (Hcnt : count_pp k ((k, pppoe_sid n) :: w_pp_all w) = 1%nat).
+    { unfold count_pp. simpl. rewrite key_eqb_refl. simpl. f_equal. apply (count_pp_zero k _ Hnone). }
     assert (Hno : m_get k (w_ipoe w) = None).
     { destruct (m_get k (w_ipoe w)) as [s|] eqn:E; [|reflexivity]. destruct (Hip _ _ E) as [_ Hr]. congruence. }
     split.
-    + constructor; cbn [w_reg w_ipoe w_pp_key w_pp_all].
+    + constructor; cbn [w_reg w_ipoe w_pp_key w_pp_all w_next].
       * exact Hok'.
       * exact Hsids.
       * intros k2 s2 Hg. rewrite Hget. destruct (key_eqb k2 k) eqn:Ek.
         -- apply key_eqb_eq in Ek. subst k2. congruence.
         -- apply Hip. exact Hg.
+      * exact Hps'.
+      * exact Hpu'.
       * intros k2 s2 [Hin|Hin].
-        -- inversion Hin; subst. split; [exists n; reflexivity|]. rewrite Hget, key_eqb_refl.
-           split; [reflexivity | apply m_get_set_same].
-        -- destruct (Hpp _ _ Hin) as [Hn [Hr2 Hk2]]. destruct (key_eqb k2 k) eqn:Ek.
+        -- inversion Hin; subst. rewrite Hget, key_eqb_refl. split; [reflexivity | apply m_get_set_same].
+        -- destruct (Hpp _ _ Hin) as [Hr2 Hk2]. destruct (key_eqb k2 k) eqn:Ek.
            ++ apply key_eqb_eq in Ek. subst k2. exfalso. eapply Hnone; eauto.
-           ++ split; [exact Hn|]. rewrite Hget, Ek. split; [exact Hr2|].
+           ++ rewrite Hget, Ek. split; [exact Hr2|].
               rewrite m_get_set_other by (apply key_eqb_neq; exact Ek). exact Hk2.
       * intros k2 o2. rewrite Hget. destruct (key_eqb k2 k) eqn:Ek.
         -- apply key_eqb_eq in Ek. subst k2. intros H; inversion H; subst. right. left. reflexivity.
         -- intros H. destruct (Hown _ _ H) as [Hl|Hr2]; [left; exact Hl | right; right; exact Hr2].
+      * constructor; [intros Hin; pose proof (Hfresh _ _ Hin) as F; rewrite bytes_eqb_refl in F; discriminate | exact Hnd].
     + unfold e2e_snapshot. cbn [w_reg w_ipoe w_pp_all]. rewrite Hno, Hget, key_eqb_refl, Hcnt. reflexivity.
 Qed.
 
-(* every tuple of a world satisfying the invariant: no session, or exactly one session which is
-   also the registry owner — never sessions of both protocols, never a session that is not the owner *)
+(* every tuple of a world satisfying the invariant: no session at all, or exactly ONE session over
+   both components, which is the registry owner *)
 Lemma inv_exclusive w k : Inv w ->
   e2e_snapshot w k = (0%nat, 0%nat, None) \/
   e2e_snapshot w k = (1%nat, 0%nat, Some proto_ipoe) \/
-  (exists n, e2e_snapshot w k = (0%nat, S n, Some proto_pppoe)).
+  e2e_snapshot w k = (0%nat, 1%nat, Some proto_pppoe).
 Proof.
-  intros [Hok Hsids Hip Hpp Hown]. unfold e2e_snapshot.
+  intros [Hok Hsids Hip Hps Hpu Hpp Hown Hnd]. unfold e2e_snapshot.
   destruct (m_get k (w_ipoe w)) as [s|] eqn:Ei.
   - destruct (Hip _ _ Ei) as [Es Er]. rewrite Er. right. left.
     rewrite count_pp_zero; [rewrite Es; reflexivity|].
-    intros sid Hin. destruct (Hpp _ _ Hin) as [_ [Hr _]]. rewrite Er in Hr. inversion Hr as [E]. rewrite Es in E. inversion E.
+    intros sid Hin. destruct (Hpp _ _ Hin) as [Hr _]. rewrite Er in Hr. inversion Hr as [E]. rewrite Es in E. inversion E.
   - destruct (reg_get (w_reg w) k) as [o|] eqn:Er.
     + destruct (Hown _ _ Er) as [H|H]; [congruence|]. right. right.
-      destruct (Hpp _ _ H) as [_ [Hr _]]. rewrite Er in Hr. inversion Hr. cbn [o_proto ppo].
-      destruct (count_pp k (w_pp_all w)) eqn:Ec; [exfalso; eapply in_count_pp; eauto | eauto].
+      destruct (Hpp _ _ H) as [Hr _]. rewrite Er in Hr. injection Hr as Eo.
+      rewrite (count_pp_one k (o_sid o) _ Hnd H); [rewrite Eo; reflexivity|].
+      intros s Hin. destruct (Hpp _ _ Hin) as [Hr2 _]. rewrite Er in Hr2. injection Hr2 as E2.
+      rewrite E2. reflexivity.
     + left. rewrite count_pp_zero; [reflexivity|].
-      intros sid Hin. destruct (Hpp _ _ Hin) as [_ [Hr _]]. congruence.
+      intros sid Hin. destruct (Hpp _ _ Hin) as [Hr _]. congruence.
 Qed.
 
-Lemma run_inv ops : forall w, Inv w -> no_repadr Repaired w ops = true -> Inv (e2e_run Repaired w ops).
+Lemma step_inv w o : Inv w -> Inv (e2e_step Repaired w o).
 Proof.
-  induction ops as [|o rest IH]; intros w I H; [exact I|].
-  cbn [no_repadr] in H. apply andb_true_iff in H. destruct H as [H1 H2].
-  cbn [e2e_run fold_left]. apply IH; [|exact H2].
-  destruct o as [k|k].
-  - apply (step_discover w k I).
-  - apply Nat.eqb_eq in H1. apply (step_padr w k I H1).
+  intros I. destruct o as [k|k|k|k].
+  - apply (step_create w k I).
+  - apply (step_create w k I).
+  - apply (step_create w k I).
+  - apply (step_padr w k I).
+Qed.
+Lemma run_inv ops : forall w, Inv w -> Inv (e2e_run Repaired w ops).
+Proof.
+  induction ops as [|o rest IH]; intros w I; [exact I|].
+  cbn [e2e_run fold_left]. apply IH. apply step_inv. exact I.
 Qed.
 
-(* the end-to-end statement for the repaired variant *)
+(* the end-to-end statement for the repaired variant, every history of DISCOVER / REQUEST / SOLICIT /
+   PADR (replayed PADRs included) *)
 Lemma e2e_newest_survives ops o :
-  no_repadr Repaired world0 (ops ++ [o]) = true ->
-  let w := e2e_run Repaired world0 ops in
-  let w' := e2e_step Repaired w o in
+  let w' := e2e_step Repaired (e2e_run Repaired world0 ops) o in
   (forall k, e2e_snapshot w' k = (0%nat, 0%nat, None) \/
              e2e_snapshot w' k = (1%nat, 0%nat, Some proto_ipoe) \/
-             (exists n, e2e_snapshot w' k = (0%nat, S n, Some proto_pppoe))) /\
+             e2e_snapshot w' k = (0%nat, 1%nat, Some proto_pppoe)) /\
   match o with
-  | EDiscover k => e2e_snapshot w' k = (1%nat, 0%nat, Some proto_ipoe)
+  | EDiscover k | ERequest k | ESolicit k => e2e_snapshot w' k = (1%nat, 0%nat, Some proto_ipoe)
   | EPadr k => e2e_snapshot w' k = (0%nat, 1%nat, Some proto_pppoe)
   end.
 Proof.
-  intros H w w'.
-  assert (Hsplit : forall ops w0, no_repadr Repaired w0 (ops ++ [o]) = true ->
-            no_repadr Repaired w0 ops = true /\ no_repadr Repaired (e2e_run Repaired w0 ops) [o] = true).
-  { clear. induction ops as [|a r IH]; intros w0 H; [split; [reflexivity | exact H]|].
-    cbn [app no_repadr] in H. apply andb_true_iff in H. destruct H as [H1 H2].
-    destruct (IH _ H2) as [A B]. cbn [no_repadr e2e_run fold_left]. rewrite H1, A. split; [reflexivity | exact B]. }
-  destruct (Hsplit ops world0 H) as [Ha Hb].
-  pose proof (run_inv ops world0 inv0 Ha) as I. fold w in I, Hb.
-  cbn [no_repadr] in Hb. rewrite andb_true_r in Hb.
-  destruct o as [k|k].
-  - destruct (step_discover w k I) as [I' S]. split; [intros k0; apply inv_exclusive; exact I' | exact S].
-  - apply Nat.eqb_eq in Hb. destruct (step_padr w k I Hb) as [I' S].
-    split; [intros k0; apply inv_exclusive; exact I' | exact S].
+  intros w'. pose proof (run_inv ops world0 inv0) as I.
+  split.
+  - intros k. apply inv_exclusive. apply step_inv. exact I.
+  - destruct o as [k|k|k|k].
+    + apply (step_create _ k I).
+    + apply (step_create _ k I).
+    + apply (step_create _ k I).
+    + apply (step_padr _ k I).
 Qed.
 
-(* before 94649ad: the displacing session was destroyed by its own eviction event, in both directions *)
+(* ---- refutations: what each missing repair costs ---- *)
 Definition e2e_k : key := mkKey 100 10 [2; 170; 187; 204; 0; 1]%N.
+Definition NoClaimOnRequestSolicit : variant := mkV true false true.
+Definition SupersededSurvives : variant := mkV true true false.
+
+(* before 94649ad (fixed): the displacing session was destroyed by its own eviction event *)
 Lemma e2e_defective_witness :
   e2e_snapshot (e2e_run Defective world0 [EDiscover e2e_k; EPadr e2e_k]) e2e_k = (0%nat, 0%nat, None) /\
-  e2e_snapshot (e2e_run Defective world0 [EPadr e2e_k; EDiscover e2e_k]) e2e_k = (0%nat, 0%nat, None) /\
-  e2e_snapshot (e2e_run Repaired world0 [EDiscover e2e_k; EPadr e2e_k]) e2e_k = (0%nat, 1%nat, Some proto_pppoe) /\
-  e2e_snapshot (e2e_run Repaired world0 [EPadr e2e_k; EDiscover e2e_k]) e2e_k = (1%nat, 0%nat, Some proto_ipoe) /\
-  no_repadr Repaired world0 [EDiscover e2e_k; EPadr e2e_k; EDiscover e2e_k; EPadr e2e_k] = true.
+  e2e_snapshot (e2e_run Defective world0 [EPadr e2e_k; EDiscover e2e_k]) e2e_k = (0%nat, 0%nat, None).
+Proof. vm_compute. split; reflexivity. Qed.
+
+(* an IPoE session created by REQUEST or SOLICIT never claims: it coexists with a PPPoE session,
+   whichever comes first, and never owns its tuple *)
+Lemma e2e_unclaimed_paths_witness :
+  e2e_snapshot (e2e_run NoClaimOnRequestSolicit world0 [ERequest e2e_k]) e2e_k = (1%nat, 0%nat, None) /\
+  e2e_snapshot (e2e_run NoClaimOnRequestSolicit world0 [ERequest e2e_k; EPadr e2e_k]) e2e_k = (1%nat, 1%nat, Some proto_pppoe) /\
+  e2e_snapshot (e2e_run NoClaimOnRequestSolicit world0 [ESolicit e2e_k; EPadr e2e_k]) e2e_k = (1%nat, 1%nat, Some proto_pppoe) /\
+  e2e_snapshot (e2e_run NoClaimOnRequestSolicit world0 [EPadr e2e_k; ERequest e2e_k]) e2e_k = (1%nat, 1%nat, Some proto_pppoe) /\
+  e2e_snapshot (e2e_run NoClaimOnRequestSolicit world0 [EPadr e2e_k; ESolicit e2e_k]) e2e_k = (1%nat, 1%nat, Some proto_pppoe).
 Proof. vm_compute. repeat split; reflexivity. Qed.
+
+(* a replayed PADR leaves the older PPPoE session alive; an IPoE takeover then evicts only the owner
+   and an IPoE and a PPPoE session share the tuple *)
+Lemma e2e_superseded_witness :
+  e2e_snapshot (e2e_run SupersededSurvives world0 [EPadr e2e_k; EPadr e2e_k]) e2e_k = (0%nat, 2%nat, Some proto_pppoe) /\
+  e2e_snapshot (e2e_run SupersededSurvives world0 [EPadr e2e_k; EPadr e2e_k; EDiscover e2e_k]) e2e_k = (1%nat, 1%nat, Some proto_ipoe).
+Proof. vm_compute. split; reflexivity. Qed.
